@@ -31,3 +31,42 @@ check("C15", "model_checking",
       "K2/K3 about the kernel's treatment of excess descriptors.",
       "TLC model checking of Frag.tla + replay of TLC behaviours + TLC trace validation",
       "DESIGN.md 3.2, 6 (C15)")
+check("C03", "model_checking",
+      "Channels.tla (the ideal API model: handles owned by agents, messages carrying endpoints, eager death of queues "
+      "whose receiver is gone) defines when a receive may say 'disconnected' or 'empty'. TLC enumerates every behaviour "
+      "of <=3 (thorough 4) operations over clone/move/embed/extract/drop/drop-carrier/agent-exit for 1 and 2 agents and "
+      "simulates longer ones (up to 60 operations, 6 channels); each behaviour, ending in a probe/drain epilogue, is "
+      "replayed through the real crate with agent 1 as a thread or a spawned process, comparing every result. For every "
+      "operation that the model says disconnects an idle receiver, a receive (blocking or 15 s timed) is parked on that "
+      "receiver first and must wake up with 'disconnected'.",
+      "Acyclic channel families; bounded histories; the racing half is forced in one order (receiver already blocked); "
+      "macOS/Windows unbound.",
+      "TLC exhaustive + simulation of Channels.tla, behaviours replayed through the API with per-step comparison",
+      "DESIGN.md 3.5, 6 (C03)")
+check("C04", "model_checking",
+      "Same model and binding as C03, with behaviours selected for messages that embed senders (typed, opaque, bytes), "
+      "receivers (typed, bytes) and regions at positions 1..4 of small and multi-packet messages, transfer chains across "
+      "threads and processes with messages pending before/between/after hops. Identity is checked by tagged traffic: "
+      "the model says which tag must come out of which receiver in which order, and the epilogue sends one probe through "
+      "every remaining sender handle and drains every receiver.",
+      "At most 4 slots per generated message (counts up to 300 are covered at the platform layer by C15); acyclic families.",
+      "TLC exhaustive + simulation of Channels.tla, behaviours replayed through the API with per-step comparison",
+      "DESIGN.md 3.5, 6 (C04)")
+check("C05", "model_checking",
+      "Regions in Channels.tla: created from bytes or from a fill byte with lengths 0, 1, page-1, page, page+1, 2 pages-1, "
+      "2 pages, 2 pages+1, cloned, sent 1..4 per message in any order, received by the same or the other agent (thread or "
+      "spawned process), read through any handle after any drops; every read must return the creating bytes. Replayed on "
+      "the shm_open build, the memfd build and the in-process build.",
+      "Premise K12; lengths are a fixed table (plus 100000 and 7 in the thorough tier); contents are a deterministic "
+      "pattern per region token.",
+      "TLC exhaustive + simulation of Channels.tla, behaviours replayed through the API on three builds",
+      "DESIGN.md 3.5, 6 (C05)")
+check("C09", "model_checking",
+      "Channels.tla: send succeeds iff the receiving end exists (held, or in transit inside a live queue). Behaviours in "
+      "which the receiver, its carrier queue or its whole process disappears at every point relative to sends of small and "
+      "multi-packet messages with and without attachments are enumerated/simulated by TLC and replayed with SIGPIPE at its "
+      "default disposition in every harness process; a send must return exactly the model's ok/err, never kill the process "
+      "or block (20 s watchdog).",
+      "Acyclic families; error *codes* are not compared; macOS/Windows unbound.",
+      "TLC exhaustive + simulation of Channels.tla, behaviours replayed through the API with per-step comparison",
+      "DESIGN.md 3.5, 6 (C09)")
